@@ -51,12 +51,16 @@ def specialize_source(source, specialize_for, search_in_folders=[]):
                     + "{ //autovectorized\n"
                 )
             elif specialize_for == "opencl":
+                # a scope per block, as the loop is on the cpu targets: two
+                # blocks of a kernel may use the same index name
+                new_lines.append("{ //autovectorized\n")
                 new_lines.append(f"int {varname}; //autovectorized\n")
                 new_lines.append(
                     f"{varname}=get_global_id(0); //autovectorized\n"
                 )
 
             elif specialize_for == "cuda":
+                new_lines.append("{ //autovectorized\n")
                 new_lines.append(f"int {varname}; //autovectorized\n")
                 new_lines.append(
                     f"{varname}=blockDim.x * blockIdx.x + threadIdx.x;"
@@ -67,9 +71,9 @@ def specialize_source(source, specialize_for, search_in_folders=[]):
             if specialize_for.startswith("cpu"):
                 new_lines.append("}//end autovectorized\n")
             elif specialize_for == "opencl":
-                new_lines.append("//end autovectorized\n")
-            elif specialize_for == "cuda":
                 new_lines.append("}//end autovectorized\n")
+            elif specialize_for == "cuda":
+                new_lines.append("}}//end autovectorized\n")
 
             inside_vect_block = False
         else:
